@@ -677,6 +677,8 @@ class RefEval:
                 lvk = self.live(ctx, gg)
                 c = self.eval(s.cond, env, ctx, lvk)
                 gg = z3.And(gg, c)
+                if z3.is_false(z3.simplify(self.live(ctx, gg))):
+                    break      # the loop has ended on every run (concrete trip count)
                 if k == self.unroll:
                     self.res.exceeded = z3.Or(self.res.exceeded, self.live(ctx, gg))
                     break
@@ -730,6 +732,8 @@ class RefEval:
         elif isinstance(s, Append):
             arr = self.eval(s.arr, env, ctx, lv)
             v = self.eval(s.e, env, ctx, lv)
+            if z3.is_false(z3.simplify(lv)):
+                return
             if not z3.is_true(z3.simplify(lv)):
                 raise Unsupported('append under a symbolic guard')
             arr.elems.append(self.copy(v))
